@@ -94,6 +94,18 @@ func execOp(rc *RealCase, fsys backupfs.FS, op Op) []string {
 			return []string{"err-read", errClass(err)}
 		}
 		return []string{"ok", "data", f.Name(), string(b)}
+	case "fstat":
+		// Open + File.Stat + Close: the FileInfo a HANDLE reports (its Name must not reveal a prefix either)
+		f, err := fsys.Open(a[0])
+		if err != nil {
+			return []string{"err", errClass(err)}
+		}
+		defer f.Close()
+		fi, err := f.Stat()
+		if err != nil {
+			return []string{"err-stat", errClass(err)}
+		}
+		return append([]string{"ok", f.Name()}, rc.infoFields(fi)...)
 	case "mkdir":
 		return res(fsys.Mkdir(a[0], goMode(atou(a[1]))))
 	case "mkdirall":
@@ -151,6 +163,8 @@ func modelOpFields(op Op) (cmd string, fields []string) {
 		return "write", []string{a[0], a[1], a[2], a[3]}
 	case "read":
 		return "read", []string{a[0]}
+	case "fstat":
+		return "fstat", []string{a[0]}
 	case "chtimes":
 		return "call", []string{"chtimes", a[0], a[1], a[1]}
 	case "chmod":
